@@ -301,6 +301,30 @@ PROPS["C11"] = dict(
     assumptions=ASSUME_COMMON,
 )
 
+PROPS["C10"] = dict(
+    units=[dict(name="c10-float", src="props/c10.cpp", flags=["-DVERIF_T=float"]),
+           dict(name="c10-double", src="props/c10.cpp", flags=["-DVERIF_T=double"]),
+           dict(name="c10-ldouble", src="props/c10.cpp", flags=["-DVERIF_T=long double"])],
+    rule="case = engine (nine standard engines; synthetic ranges of size 2, 3, 2^7, 2^14, 2^16+1, 2^31-1, 2^32-5, "
+         "[1,2^32-1], [1,2^16-1], [5,1004], 2^53, 2^63, 2^64; independent_bits_engine with 7 / 14 / 23 bits) x integrator x "
+         "1..6 dims x 0..500 calls x value pattern (constant, all zero, alternating zero, NaN/zero/negative, inf, sign "
+         "changing) x projector use x explicit weight requests x grid (uniform / power) or weights incl. zeros; one unit "
+         "per numeric type; non-trivial: >= 2 calls and (a multi-draw type/engine combination or zero / non-finite values); "
+         "distinct = distinct description",
+    quick=dict(shards=3, cases=1500),
+    thorough=dict(shards=5, cases=100000),
+    floors={"multi-draw": 0.2, "zero-or-non-finite-values": 0.3, "stored-generator": 0.15, "MULTI": 0.2, "VEGAS": 0.2},
+    level_text="invariant + agreement with the predictor: a counting wrapper read inside the integrand shows exactly "
+               "(i+1) x numbers-per-call x k raw draws at call i whatever earlier calls returned; k (measured on a probe "
+               "URBG) equals hep::random_number_usage for the engine, a wrapped engine and a reference type; the generator "
+               "after an iteration, and the one stored in the checkpoint of hep::plain / vegas / multi_channel, equals a "
+               "copy advanced by discard(calls x numbers x k); exploration over generated configurations",
+    level_note="trusted: the counting wrapper and std::generate_canonical of libstdc++ 12 as the consumer being measured; "
+               "synthetic engines are harness code with arbitrary [min, max]",
+    technique="rapidcheck over choice tapes; counting-engine invariant, predictor agreement, discard differential",
+    assumptions=ASSUME_COMMON,
+)
+
 NOT_APPLICABLE = {}
 
 ENGINES = [
